@@ -2288,23 +2288,39 @@ where
 
         let mut fragments = C::new();
 
+        // whether the current item is the first one (basic offset table)
+        let mut first_item = true;
+        // whether a value token was found in the current item
+        let mut item_has_value = false;
+
         for token in dataset {
             match token.context(ReadTokenSnafu)? {
                 DataToken::OffsetTable(table) => {
                     offset_table = Some(table);
+                    item_has_value = true;
                 }
                 DataToken::ItemValue(data) => {
                     fragments.push(data);
+                    item_has_value = true;
                 }
                 DataToken::ItemEnd => {
-                    // at the end of the first item ensure the presence of
-                    // an empty offset_table here, so that the next items
-                    // are seen as compressed fragments
-                    if offset_table.is_none() {
-                        offset_table = Some(Vec::new())
+                    if first_item {
+                        // at the end of the first item ensure the presence of
+                        // an empty offset_table here, so that the next items
+                        // are seen as compressed fragments
+                        if offset_table.is_none() {
+                            offset_table = Some(Vec::new())
+                        }
+                        first_item = false;
+                    } else if !item_has_value {
+                        // a fragment of length zero has no value token,
+                        // but it is still a fragment
+                        fragments.push(Default::default());
                     }
                 }
-                DataToken::ItemStart { len: _ } => { /* no-op */ }
+                DataToken::ItemStart { len: _ } => {
+                    item_has_value = false;
+                }
                 DataToken::SequenceEnd => {
                     // end of pixel data
                     break;
